@@ -127,7 +127,7 @@ func runC11(c *fw.Ctx) {
 			v, w := g.Value()
 			c.Tracef("upd %s=%s", wl.KeyStr(k), v)
 			noteShared()
-			if err := t.Update(k, v, w); err != nil {
+			if err := wl.Upd(t, k, v, w); err != nil {
 				fail("", "Update failed: %v", err)
 				return
 			}
@@ -139,7 +139,7 @@ func runC11(c *fw.Ctx) {
 			c.Tracef("overwrite %s=%s", wl.KeyStr(k), v)
 			noteShared()
 			grave[string(k)] = m[string(k)]
-			if err := t.Update(k, v, w); err != nil {
+			if err := wl.Upd(t, k, v, w); err != nil {
 				fail("", "Update failed: %v", err)
 				return
 			}
@@ -152,7 +152,7 @@ func runC11(c *fw.Ctx) {
 			c.Tracef("del %s", wl.KeyStr(k))
 			noteShared()
 			grave[string(k)] = m[string(k)]
-			if err := t.Update(k, nil, 0); err != nil {
+			if err := wl.Upd(t, k, nil, 0); err != nil {
 				fail("", "delete failed: %v", err)
 				return
 			}
@@ -168,7 +168,7 @@ func runC11(c *fw.Ctx) {
 			e := grave[k]
 			c.Tracef("re-add %s=%s (identical to earlier content)", wl.KeyStr([]byte(k)), e.Val)
 			noteShared()
-			if err := t.Update([]byte(k), e.Val, e.W); err != nil {
+			if err := wl.Upd(t, []byte(k), e.Val, e.W); err != nil {
 				fail("", "Update failed: %v", err)
 				return
 			}
@@ -182,11 +182,11 @@ func runC11(c *fw.Ctx) {
 			e := m[k]
 			c.Tracef("del+re-add %s", wl.KeyStr([]byte(k)))
 			noteShared()
-			if err := t.Update([]byte(k), nil, 0); err != nil {
+			if err := wl.Upd(t, []byte(k), nil, 0); err != nil {
 				fail("", "delete failed: %v", err)
 				return
 			}
-			if err := t.Update([]byte(k), e.Val, e.W); err != nil {
+			if err := wl.Upd(t, []byte(k), e.Val, e.W); err != nil {
 				fail("", "Update failed: %v", err)
 				return
 			}
